@@ -131,6 +131,34 @@ def _process_constant_node(node: ir.Node) -> None:
     ir_value.dtype = const_value.dtype
 
 
+def _use_tensor_valued_constants(nodes: Iterable[ir.Node], version: int) -> bool:
+    """Rewrite Constant nodes that use value_int(s)/value_float(s) to the tensor-valued form.
+
+    Constant has these attributes only since opset 12; the partial evaluators use them for
+    brevity, which would make the result of optimizing an older model invalid.
+    Returns False if a constant cannot be expressed in the given opset version at all
+    (before opset 9 Constant produces floating point tensors only).
+    """
+    for node in nodes:
+        if not _is_onnx_op(node, "Constant") or len(node.attributes) != 1:
+            continue
+        attr = next(iter(node.attributes.values()))
+        if attr.name in {"value_int", "value_ints"}:
+            dtype = np.int64
+        elif attr.name in {"value_float", "value_floats"}:
+            dtype = np.float32
+        else:
+            continue
+        if attr.value is None:
+            continue
+        if version < 9 and dtype is not np.float32:
+            return False
+        tensor = ir.Tensor(np.array(attr.value, dtype=dtype))
+        del node.attributes[attr.name]
+        node.attributes["value"] = ir.AttrTensor("value", tensor)
+    return True
+
+
 def basic_constant_propagation(nodes: Iterable[ir.Node]) -> None:
     """Performs basic constant propagation for a sequence of nodes.
 
@@ -1263,6 +1291,12 @@ class FoldConstantsPass(ir.passes.InPlacePass):
                     return output
                 if isinstance(output, ir.Value):
                     output = [output]
+                if (
+                    node.domain == ""
+                    and version < 12
+                    and not _use_tensor_valued_constants(context.nodes, version)
+                ):
+                    continue
                 return Replacement(output, context.nodes)
 
         if _is_onnx_op(node, "Constant"):
